@@ -582,11 +582,21 @@ def decision_blocks(b, effects):
                 can_skip.add(p)
                 stack.append(p)
     reach = set(b.reachable(0)) | {0}
+    # blocks from which some return is reachable at all (a successor outside this set diverges: panic / abort / unreachable)
+    can_ret = set(b.return_blocks())
+    stack = list(can_ret)
+    while stack:
+        x = stack.pop()
+        for p in b.pred[x]:
+            if p in b.live_blocks and p not in can_ret:
+                can_ret.add(p)
+                stack.append(p)
     out = []
     for d in sorted(can_eff & can_skip & reach):
         if b.blocks[d]["term"]["t"] == "switch":
-            ys = b.succ[d]
-            if any(y in can_eff or y in eff_blocks for y in ys) and any(y in can_skip for y in ys):
+            # an assertion (debug_assert!, bounds check, unwrap) has one continuing successor; it decides nothing about the effect
+            ys = [y for y in b.succ[d] if y in can_ret]
+            if len(set(ys)) >= 2 and any(y in can_eff or y in eff_blocks for y in ys) and any(y in can_skip for y in ys):
                 out.append(d)
     return out
 
